@@ -5,9 +5,13 @@ package fake
 import (
 	"context"
 
+	"github.com/google/osv-scalibr/detector"
 	"github.com/google/osv-scalibr/extractor"
 	"github.com/google/osv-scalibr/extractor/filesystem"
+	"github.com/google/osv-scalibr/extractor/standalone"
+	scalibrfs "github.com/google/osv-scalibr/fs"
 	"github.com/google/osv-scalibr/inventory"
+	"github.com/google/osv-scalibr/packageindex"
 	"github.com/google/osv-scalibr/plugin"
 	"github.com/google/osv-scalibr/purl"
 )
@@ -63,3 +67,45 @@ func (e *Extractor) ToPURL(p *extractor.Package) *purl.PackageURL {
 }
 
 func (e *Extractor) Ecosystem(*extractor.Package) string { return "" }
+
+// Detector is a detector driven by the harness.
+type Detector struct {
+	DetName  string
+	Required []string
+	OnScan   func(ctx context.Context, root *scalibrfs.ScanRoot, px *packageindex.PackageIndex) ([]*detector.Finding, error)
+	Scans    int
+}
+
+func (d *Detector) Name() string                       { return d.DetName }
+func (d *Detector) Version() int                       { return 1 }
+func (d *Detector) Requirements() *plugin.Capabilities { return &plugin.Capabilities{} }
+func (d *Detector) RequiredExtractors() []string       { return d.Required }
+func (d *Detector) Scan(ctx context.Context, root *scalibrfs.ScanRoot, px *packageindex.PackageIndex) ([]*detector.Finding, error) {
+	d.Scans++
+	if d.OnScan != nil {
+		return d.OnScan(ctx, root, px)
+	}
+	return nil, nil
+}
+
+// Standalone is a standalone extractor driven by the harness.
+type Standalone struct {
+	ExName    string
+	OnExtract func(ctx context.Context, in *standalone.ScanInput) (inventory.Inventory, error)
+	Runs      int
+}
+
+func (e *Standalone) Name() string                       { return e.ExName }
+func (e *Standalone) Version() int                       { return 1 }
+func (e *Standalone) Requirements() *plugin.Capabilities { return &plugin.Capabilities{} }
+func (e *Standalone) Extract(ctx context.Context, in *standalone.ScanInput) (inventory.Inventory, error) {
+	e.Runs++
+	if e.OnExtract != nil {
+		return e.OnExtract(ctx, in)
+	}
+	return inventory.Inventory{}, nil
+}
+func (e *Standalone) ToPURL(p *extractor.Package) *purl.PackageURL {
+	return &purl.PackageURL{Type: purl.TypeGeneric, Name: p.Name, Version: p.Version}
+}
+func (e *Standalone) Ecosystem(*extractor.Package) string { return "" }
